@@ -81,3 +81,44 @@ func init() {
 		d.b.mu.Unlock()
 	}
 }
+
+// Application event handlers that take their time: {"a":"holdHandler","mode":"Disconnected","n":2,"gate":"d"} makes the nth call of the
+// connection's Disconnected handler wait for gate d (bounded by 10 s). The library calls the handler synchronously on its supervisor.
+type handlerHold struct {
+	name string
+	nth  int
+	gate string
+	seen int
+}
+
+func (b *Broker) HandlerHold(name string) {
+	b.mu.Lock()
+	var hit *handlerHold
+	for _, h := range b.handlerHolds {
+		if h.name == name {
+			h.seen++
+			if h.nth == h.seen {
+				hit = h
+				break
+			}
+		}
+	}
+	b.mu.Unlock()
+	if hit == nil {
+		return
+	}
+	b.rec.Log("HandlerHeld", "handler", name, "gate", hit.gate)
+	select {
+	case <-b.gate(hit.gate):
+	case <-time.After(10 * time.Second):
+	}
+	b.rec.Log("HandlerReleased", "handler", name, "gate", hit.gate)
+}
+
+func init() {
+	ExtraSteps["holdHandler"] = func(d *Driver, st *Step, g string) {
+		d.b.mu.Lock()
+		d.b.handlerHolds = append(d.b.handlerHolds, &handlerHold{name: st.Mode, nth: st.N, gate: st.Gate})
+		d.b.mu.Unlock()
+	}
+}
